@@ -249,6 +249,40 @@ Theorem C09_cat_discard_outcome :
 Proof. exact cat_discard_outcome. Qed.
 Print Assumptions C09_cat_discard_outcome.
 
+(* THE ONE EXCEPTION (known finding; pinned by the baseline test TestContinuationFlood): the header LIST limit.
+   over_header_list_limit cfg size: a configured limit (cf_maxHeaderList > 0) is exceeded by `size`. header_field
+   raises a CONNECTION error exactly when the list size so far + this field (name + value + 32) is over it ... *)
+Theorem C09_header_list_limit_exception : forall cfg h k v code,
+  header_field cfg h k v = inl (EGoAway code) <->
+  code = c_EnhanceYourCalm /\ over_header_list_limit cfg (hd_headerListSize h + field_size k v) = true.
+Proof. exact header_field_goaway_iff. Qed.
+Print Assumptions C09_header_list_limit_exception.
+
+(* ... and OUTSIDE the exception a malformed request is a stream error, never a connection error: a HEADERS /
+   CONTINUATION frame that is acceptable in its stream's state (verify_state, rank_ok, trailer_ok, no
+   self-dependency) and whose fragment decodes (ref_run), with the header list and the carried incomplete field
+   within the limit, gives no error or a stream error (EReset: C09_cat_malformed_field for the codes,
+   C09_cat_stream_error_reaction and C09_stream_errors_stay for what follows). dec_shrinks: a decoded field consumes
+   at least one octet - for the real decoder: C09_srv_dec_shrinks below. *)
+Theorem C09_malformed_request_is_stream_error :
+  forall cfg hstate (dec_field : hstate -> N -> bytes -> dec_res hstate),
+    (forall d n b k v rest d', dec_field d n b = DField _ k v rest d' -> (length rest < length b)%nat) ->
+    forall (c : sconn hstate) s fr fs d' n' carry',
+      is_hdr_kind (sf_kind fr) = true -> verify_state s fr = None -> rank_ok s fr -> trailer_ok s fr ->
+      (fkind_eqb (sf_kind fr) KHeaders && (sf_dep fr =? st_id s))%bool = false ->
+      ref_run dec_field (eh_of fr) (sc_dec c) (hn0 s fr) (hb0 s fr) fs d' n' carry' ->
+      over_header_list_limit cfg (st_headerListSize s + fields_size fs) = false ->
+      over_header_list_limit cfg (Z.of_N (len carry')) = false ->
+      snd (handle_frame dec_field cfg c s fr) = None \/
+      exists code, snd (handle_frame dec_field cfg c s fr) = Some (EReset code).
+Proof. exact header_frame_not_fatal. Qed.
+Print Assumptions C09_malformed_request_is_stream_error.
+
+Theorem C09_srv_dec_shrinks : forall d n b k v rest d',
+  srv_dec_field d n b = DField _ k v rest d' -> (length rest < length b)%nat.
+Proof. exact srv_dec_shrinks. Qed.
+Print Assumptions C09_srv_dec_shrinks.
+
 (* ================= (c) non-interference ================= *)
 
 (* Each step only touches the stream it is about (step_own: the stream of the frame the stream loop takes, the
@@ -336,10 +370,10 @@ Proof.
 Qed.
 Print Assumptions C09_example_two_runs.
 
-(* FINDING (model and code agree): a request whose header LIST exceeds the limit is a CONNECTION error
-   (serverConn.go:1419 GOAWAY ENHANCE_YOUR_CALM), although the property's catalogue counts an oversized request as
-   stream-scoped: stream 1, open and waiting for its body, is lost with the connection. *)
-Example C09_finding_oversized_header_list :
+(* the exception is real (model and code agree: serverConn.go:1419 GOAWAY ENHANCE_YOUR_CALM): with a header list
+   limit of 200, stream 1 is open and waiting for its body; the header list of stream 3 comes to 229 octets: GOAWAY,
+   the stream loop ends, stream 1 is lost with the connection *)
+Example C09_header_list_limit_is_connection_error :
   srv_trace (srv_run ex_cfg_limit ex_evs_oversized) = [OGoAway 3 c_EnhanceYourCalm; OExit 1 0].
 Proof. exact ex_oversized_header_list. Qed.
 
